@@ -45,4 +45,18 @@ var checks = map[string]*checkDef{
 			"neutral states: identity for Edwards/Ristretto points and their compressed forms, the reset state for sr25519 Signature/PublicKey/KeyPair; for all other receivers 'unchanged or neutral, never a hybrid' is demanded because nothing more is documented",
 		},
 	},
+	"C09": {
+		property: "C09", level: "exploration",
+		plan: []planItem{
+			{workload: "C09", variant: "plain", quick: 12000, thorough: 300000},
+			{workload: "C09", variant: "noavx2", thorough: 15000, thoroughOnly: true},
+			{workload: "C09", variant: "purego", thorough: 15000, thoroughOnly: true},
+			{workload: "C09", variant: "force32bit", thorough: 8000, thoroughOnly: true},
+		},
+		assume: []string{
+			"the per-entry reference decision is the library's own single verification (that is the property's definition); whether that decision is right against RFC 8032 / ZIP-215 is C01, which this technique does not decide, so a defect shared by all paths is silent here",
+			"a documented panic of single verification (wrong key length, invalid options, wrong pre-hash length) counts as 'invalid', which is how the batch API treats the same entry",
+			"a panic 'failed to initialize random scalar generator' is accepted only while an entropy-reader error is being injected",
+		},
+	},
 }
